@@ -149,6 +149,13 @@ func (g *Gen) MakePlan(shapes []geneval.Shape, perBatch int) Plan {
 			{Name: "e", Num: 255, Shape: S(MessageA)},
 			{Name: "g", Num: 9, Shape: geneval.Arr(S("uint8")), Deprecated: true},
 		}},
+		{Name: "SMulti2", Kind: ClsStruct, Fields: []RecField{
+			{Name: "x", Shape: geneval.Arr(geneval.MapOf("string", S("int32")))},
+			{Name: "y", Shape: geneval.MapOf("string", S("int32"))},
+			{Name: "z", Shape: geneval.MapOf("int32", geneval.MapOf("string", S("date")))},
+			{Name: "w", Shape: geneval.MapOf("string", S("guid"))},
+		}},
+		bigStruct(),
 		{Name: "SEmpty", Kind: ClsStruct},
 		{Name: "MEmpty", Kind: ClsMessage},
 		{Name: "UEmpty", Kind: ClsUnion},
@@ -317,4 +324,15 @@ func (gf *GenFile) Snippet(n ast.Node) string {
 		return ""
 	}
 	return gf.Text[s:e]
+}
+
+// bigStruct is a flat struct of fixed-size fields wider than 255 bytes on
+// the wire (sizes summed in a narrow integer would wrap).
+func bigStruct() RecordSpec {
+	r := RecordSpec{Name: "SBig", Kind: ClsStruct}
+	for i := 0; i < 19; i++ {
+		r.Fields = append(r.Fields, RecField{Name: fmt.Sprintf("g%d", i), Shape: geneval.Simple("guid")})
+	}
+	r.Fields = append(r.Fields, RecField{Name: "tail", Shape: geneval.Simple("int64")}, RecField{Name: "flag", Shape: geneval.Simple("bool")})
+	return r
 }
